@@ -248,6 +248,37 @@ pub fn c16(tier: Tier) -> ! {
             }
         }
     }
+    // the pairing of a group with its crystal family as a state carries it: a state built for
+    // the group, the same state written and read back, and that one written again all name the
+    // family of the group in the label and in the cell, and offer the cell angle as a degree of
+    // freedom exactly when the family is oblique
+    let mut paired = 0u64;
+    for name in GROUP_NAMES.iter() {
+        for spec in [crate::states::ShapeSpec::Polygon(4), crate::states::ShapeSpec::LjCircle].iter() {
+            let built = crate::states::AnyState::from_group(name, spec);
+            let doc = built.to_json();
+            let reread = match crate::states::AnyState::from_json(&doc) {
+                Ok(s) => s,
+                Err(e) => {
+                    run.fail(None, &format!("{}: a state built for the group does not read back: {}", name, e), json!({"engine": "pairing", "group": name}));
+                    continue;
+                }
+            };
+            let doc2 = reread.to_json();
+            let want = ita_family(name);
+            let dof = if want == "Monoclinic" { 6 } else { 5 };
+            for (what, d, st) in [("built for the group", &doc, &built), ("written and read back", &doc2, &reread)].iter() {
+                paired += 1;
+                evals += 1;
+                let fam = (d["wallpaper"]["family"].as_str().unwrap_or(""), d["cell"]["family"].as_str().unwrap_or(""));
+                let nb = st.basis_values().len();
+                if fam.0 != want || fam.1 != want || nb != dof {
+                    run.fail(None, &format!("{}: a state {} names the families {:?} / {:?} and has {} degrees of freedom; the group's cells are {} ({} degrees of freedom)", name, what, fam.0, fam.1, nb, want, dof), json!({"engine": "pairing", "group": name, "state": d}));
+                }
+            }
+        }
+    }
+    run.set("group_family_pairings_in_states", paired);
     run.set("name_spellings_read", spellings.len() as u64);
     run.set("name_spellings_accepted", accepted);
     run.set("evaluations", evals);
